@@ -9,6 +9,6 @@ cp -f /repo/Cargo.lock harness/Cargo.lock.repo 2>/dev/null || true
 harness/target/checked/selftest || exit 1
 python3-vt oracles/selftest.py || exit 1
 # warm the Miri sysroot + crate (failures here only make the Miri steps inconclusive)
-( cd miri && MIRIFLAGS="-Zmiri-disable-isolation" timeout 900 cargo +nightly miri run --offline --bin m14 -- 1 quick 0/64 2>&1 | tail -2 ) || true
-( cd miri && MIRIFLAGS="-Zmiri-disable-isolation -Zmiri-tree-borrows" timeout 1500 cargo +nightly miri run --offline --bin m09 -- 1 quick 0/64 2>&1 | tail -1 ) || true
+( cd miri && MIRIFLAGS="-Zmiri-disable-isolation" timeout 900 cargo +nightly miri run --offline --bin m14 -- 1 quick 0/64 2>&1 | tail -1 | cut -c1-120 ) || true
+( cd miri && MIRIFLAGS="-Zmiri-disable-isolation -Zmiri-tree-borrows" timeout 1500 cargo +nightly miri run --offline --bin m09 -- 1 quick 0/64 2>&1 | tail -1 | cut -c1-120 ) || true
 echo "setup done"
